@@ -3,7 +3,7 @@ from textwrap import indent
 
 from pydbml.classes import Table
 from pydbml.renderer.dbml.default.renderer import DefaultDBMLRenderer
-from pydbml.renderer.dbml.default.utils import comment_to_dbml, quote_string, name_to_dbml
+from pydbml.renderer.dbml.default.utils import comment_to_dbml, indent_text, quote_string, name_to_dbml
 
 
 def get_full_name_for_dbml(model) -> str:
@@ -50,7 +50,7 @@ def render_table(model: Table) -> str:
             result += properties_str
 
     if model.note:
-        result += indent(model.note.dbml, '    ') + '\n'
+        result += indent_text(model.note.dbml, '    ') + '\n'
 
     result += render_indexes(model)
 
